@@ -58,6 +58,19 @@ let reg_bridges prop l = Hashtbl.replace bridges prop l
 
 let regex_table = lazy (List.map (fun (n, r) -> (string_of_bytes n, r)) V.all_regexes)
 
+(* Stream replaycheck (harness/cmd/run/replaycheck.go): the cases of the pure-function streams are
+   executed again in the same order, in reverse order and from 32 goroutines at once; a case
+   whose written lines differ shows that the function's result depends on earlier or on concurrent
+   calls, which no property of a pure function allows.
+     replaycheck id summary <cases> <history diffs> <concurrency diffs> - -
+     replaycheck id <kind> <stream> <inputs> <lines at first execution> <lines at re-execution> *)
+let () = reg "replaycheck" (fun f ->
+    let id = f.(1) in
+    if f.(2) = "summary" then
+      (if f.(4) = "0" && f.(5) = "0" then ok id "+reexecution_consistent"
+       else ok id "reexecution_differences_reported")
+    else specfail id (Printf.sprintf "result_depends_on_%s:%s" f.(2) f.(3)))
+
 let () = reg "rx" (fun f ->
     (* rx id name subject implbool *)
     let id = f.(1) in
